@@ -53,11 +53,12 @@ theorem mainShape_ok : GenProto.mainShape =
 /-- the plugin path check is `strings.Contains(path, "..")` (`containsDotDot`). -/
 theorem dotdotChecks_ok : GenProto.dotdotChecks = [".."] := by decide
 
-/-- gen.Generate: modules, then plugins, then the merge, and only then Join/MkdirAll/WriteFile
-(`planFiles` before `generatePlan`'s write list). -/
+/-- gen.Generate: modules, then plugins, then the merge, then the path check on the complete
+map (`checkPaths`, the repair of D33), and only then Join/MkdirAll/WriteFile (`planFiles`
+before `generatePlan`'s write list). -/
 theorem generatePhases_ok : GenProto.generatePhases =
     ["generateModule", "addFile", "generate", "m.Walk", "plug.Generate", "mergeFiles",
-     "filepath.Join", "os.MkdirAll", "os.WriteFile"] := by decide
+     "checkFilePaths", "filepath.Join", "os.MkdirAll", "os.WriteFile"] := by decide
 
 /-! ### C18 -/
 
